@@ -54,7 +54,7 @@ def make_ics(idx, feats):
         # the same property on a second line, sorting BEFORE the first one (the order of repeated properties is the client's)
         ev.append("ATTENDEE;CN=Al:mailto:al@example.com")
     if "non-ascii" in f:
-        ev.append("LOCATION:Zürich 日本")
+        ev.append("LOCATION:Zürich 日本 \U0001F600 \U00020000")
     if "rrule-exdate" in f:
         ev.append("RRULE:FREQ=WEEKLY;COUNT=5")
         if "date" in f:
@@ -257,6 +257,24 @@ def _group(args):
                     if n0 != n1:
                         vio("reupload-adds-commit:%s" % typ, "uploading what the server serves added %d commit(s)" % (n1 - n0), {"features": feats})
                         ok = False
+                # what the server serves through a REPORT (how CalDAV / CardDAV clients download objects) is the same object:
+                # uploading that representation again is a no-op as well
+                mg = s.req("REPORT", s.url(coll), dict(dav.XML_CT, Depth="1"), dav.multiget_body("calendar" if typ == "ics" else "addressbook", [s.url(coll, name)], [dav.P_GETETAG, dav.P_CALDATA if typ == "ics" else dav.P_ADDRDATA]))
+                if mg.status == 207:
+                    msr = dav.parse_multistatus(mg.body)
+                    dtext = msr.responses[0].prop_text(dav.P_CALDATA if typ == "ics" else dav.P_ADDRDATA) if msr.responses else None
+                    if dtext is not None:
+                        n_a = commit_count(s.root, coll)
+                        up = dtext.encode("utf-8")
+                        if b"\r\n" in g.body:
+                            # (an XML parser hands CRLF over as LF; cards are stored byte for byte, so the client's copy gets
+                            # its line ends back before it is compared / uploaded)
+                            up = up.replace(b"\r\n", b"\n").replace(b"\n", b"\r\n")
+                        r4 = s.req("PUT", s.url(coll, name), {"Content-Type": ct}, up)
+                        n_b = commit_count(s.root, coll)
+                        if dav.effective_status(r4) not in (201, 204) or r4.headers.get("etag") != g.headers.get("etag") or n_a != n_b:
+                            vio("reupload-of-report-data-not-a-noop:%s" % typ, "uploading the %s the multiget report serves answered %s, ETag %s (GET: %s), %d new commit(s)" % ("calendar-data" if typ == "ics" else "address-data", dav.effective_status(r4), r4.headers.get("etag"), g.headers.get("etag"), n_b - n_a), {"features": feats})
+                            ok = False
                 # normalisation is idempotent: the served bytes stored elsewhere get the same etag
                 if typ == "ics":
                     r3 = s.req("PUT", s.url("c2", name), {"Content-Type": ct}, served)
